@@ -37,7 +37,7 @@ struct Thread {
 };
 
 struct Stats {
-  uint64_t switches = 0, mutex_waits = 0, cond_waits = 0, cond_timeouts = 0, poll_parks = 0, world_steps = 0, spurious_wakeups = 0, preemptions = 0;
+  uint64_t switches = 0, mutex_waits = 0, cond_waits = 0, cond_timeouts = 0, poll_parks = 0, world_steps = 0, spurious_wakeups = 0, preemptions = 0, spins = 0;
 };
 
 class Sched {
